@@ -171,6 +171,20 @@ static void CloseTarget(void) {
     }
 }
 
+/* number of byte addresses below ByteAddr that belong to the byte lane selected by -m */
+
+static LongWord LaneBytesBelow(LargeWord ByteAddr) {
+    LargeWord z, Result;
+
+    Result = (ByteAddr >> 2) * (4 / SizeDiv);
+    for (z = ByteAddr & ~((LargeWord)3); z < ByteAddr; z++) {
+        if ((z & ANDMask) == ANDEq) {
+            Result++;
+        }
+    }
+    return (LongWord)Result;
+}
+
 static void ProcessFile(char const* FileName, LongWord Offset) {
     FILE*    SrcFile;
     Word     TestID;
@@ -256,7 +270,9 @@ static void ProcessFile(char const* FileName, LongWord Offset) {
                 /* in Zieldatei an passende Stelle */
 
                 if (fseek(TargFile,
-                          (((ErgStart - StartAdr) * Gran) / SizeDiv) + abs(StartHeader),
+                          (LaneBytesBelow((LargeWord)ErgStart * Gran)
+                           - LaneBytesBelow((LargeWord)StartAdr * Gran))
+                                  + abs(StartHeader),
                           SEEK_SET)
                     == -1) {
                     ChkIO(TargName);
